@@ -179,11 +179,16 @@ func (p *pool) cleanup() {
 }
 
 func (p *pool) putOnCooldown(peerID peer.ID) {
+	// lock order is cooldown queue first, then the pool: the queue holds its lock while it calls
+	// afterCooldown, which locks the pool. Taking the two locks the other way round here deadlocks
+	// against an expiring cooldown.
+	p.cooldown.Lock()
+	defer p.cooldown.Unlock()
 	p.m.Lock()
 	defer p.m.Unlock()
 
 	if status, ok := p.statuses[peerID]; ok && status == active {
-		p.cooldown.push(peerID)
+		p.cooldown.pushUnsafe(peerID)
 
 		p.statuses[peerID] = cooldown
 		p.activeCount--
